@@ -227,3 +227,7 @@ def timer_race(inp):
             if n:
                 bad.append({'caller_leaves_by': kind, 'interleaving': inter, 'armed_timers_after_the_caller_left': n})
     return {'violates': bool(bad), 'detail': bad}
+
+
+# thorough tier (bounded native sweeps): (function, inputs, obligation of the open finding it reproduces or None)
+THOROUGH = [('timer_race', {}, None)]
